@@ -26,6 +26,8 @@ def concerns(ev, verdict):
             s.add("C04")
         if p.startswith("date-"):
             s.add("C19")
+        if p.startswith("num-"):
+            s.add("C18")
         if p.startswith("denote-") or p.startswith("json-"):
             s.add("C11")
         if p in ("registry-visibility", "valid-registration-rejected", "invalid-name-accepted"):
@@ -106,7 +108,7 @@ def run_pipeline(prop, fam, tier, seed, work, jh, specdir, stats):
     replay(jh, cases, trace, timeout_s=fam.get("case_timeout", 3))
     stats["replay_s"] = round(time.time() - t0, 1)
     t0 = time.time()
-    verdicts, gen, dist = validate(specdir, trace, timeout=fam.get("tlc_timeout", 3000), module=fam.get("trace_module", "TraceEval"))
+    verdicts, gen, dist = validate(specdir, trace, timeout=fam.get("tlc_timeout", 3000), module=fam.get("trace_module", "TraceEval"), by_ev=fam.get("trace_by_ev"))
     stats["validate_s"] = round(time.time() - t0, 1)
     stats["v_states"] = dist
     stats["v_transitions"] = gen
@@ -137,7 +139,7 @@ def confirm(prop, fam, work, jh, specdir, evs, failing, cases_path=None):
             f.write(json.dumps(c) + "\n")
     trace = os.path.join(cdir, "trace.ndjson")
     replay(jh, cases, trace, timeout_s=fam.get("case_timeout", 3) * 3, jobs=8)
-    verdicts, _, _ = validate(specdir, trace, workers=8, module=fam.get("trace_module", "TraceEval"))
+    verdicts, _, _ = validate(specdir, trace, workers=8, module=fam.get("trace_module", "TraceEval"), by_ev=fam.get("trace_by_ev"))
     return verdicts, load_trace(trace)
 
 def run_histories(prop, fam, tier, seed, work, jh, specdir, stats):
@@ -386,6 +388,7 @@ def main(argv):
         known = load_known(prop)
         violations = []
         known_hits = {}
+        unreproduced = []
         if reps:
             cverd, cevs = confirm(prop, fam, work, jh, specdir, evs, reps, cases)
             # outcomes that depend on Go's map iteration order may need more than one attempt
@@ -408,8 +411,10 @@ def main(argv):
                         v2 = mine[i]
                         ce = evs[i]
                     else:
-                        raise Infra("disagreement on case %d (%s) did not reproduce in a fresh process: %s -> %s" %
-                                    (i, src_of(evs[i]), mine[i], v2))
+                        # not a verdict: reported as an infrastructure failure unless the run also has
+                        # disagreements that do reproduce (then those are reported, and this one is logged)
+                        unreproduced.append("case %d (%s): %s -> %s" % (i, src_of(evs[i]), mine[i], v2))
+                        continue
                 else:
                     ce = cevs[i]
                 k = match_known(known, ce, v2)
@@ -438,6 +443,10 @@ def main(argv):
                 json.dump(rp, f, indent=1, ensure_ascii=False)
             violations.append((None, v, path))
             log("   history: %s | last event %s | verdict %s" % (cps_to_str(e.get("src", [])), json.dumps(plain_out(e.get("out")))[:160], v))
+        if unreproduced and not violations and not known_hits:
+            raise Infra("disagreement did not reproduce in a fresh process: " + "; ".join(unreproduced[:5]))
+        for u in unreproduced[:10]:
+            log("   not reproduced in a fresh process (depends on what the worker process ran before; not reported): " + u)
         for kid, (k, cnt) in sorted(known_hits.items()):
             print("KNOWN-FINDING: property=%s %s (%d cases in this run)" % (prop, k["what"], cnt))
         for n_v, (i, v, path) in enumerate(violations):
@@ -462,6 +471,10 @@ def main(argv):
                 if verdicts.get(i, "ok") == "ok":
                     nontrivial.add(json.dumps([e.get(k) for k in ("fn", "day", "msod", "pic", "tz", "s")]))
                 continue
+            if e.get("ev") == "Num":
+                if verdicts.get(i, "ok") == "ok":
+                    nontrivial.add(json.dumps([[st.get(k) for k in ("fn", "x", "p", "pic", "opts", "s")] for st in e.get("steps", [])]))
+                continue
             if e.get("ev") == "Denote":
                 if verdicts.get(i, "ok") == "ok":
                     nontrivial.add(json.dumps(e["bytes"]))
@@ -477,6 +490,10 @@ def main(argv):
                 nontrivial.add(cps_to_str(e["src"]) + "|" + json.dumps(e["inp"], sort_keys=True))
         for i in rnd.sample(ids, min(6, len(ids))):
             e = evs[i]
+            if e.get("ev") == "Num":
+                samples.append({"calls": [{"call": cps_to_str(st.get("src", [])), "x": st.get("x"), "observed": ({"text": cps_to_str(st["out"]["s"])} if "s" in st.get("out", {}) else st.get("out"))} for st in e.get("steps", [])],
+                                "spec_verdict": verdicts.get(i, "ok")})
+                continue
             if e.get("ev") == "Date":
                 samples.append({"call": cps_to_str(e.get("src", [])), "observed": ({"text": cps_to_str(e["out"]["s"])} if "s" in e.get("out", {}) else e.get("out")), "spec_verdict": verdicts.get(i, "ok")})
                 continue
